@@ -165,9 +165,10 @@ var checks = map[string]*check{
 	"C09": {
 		id: "C09", models: []model{mcCore}, trace: "Trace_Core", batch: 4, sim: coreSim,
 		gen: func(g *gen.G, thor bool) []gen.Program {
-			return append(gen.History(g, n(thor, 40, 600), n(thor, 200, 400)), gen.Alias(g, n(thor, 150, 3000))...)
+			// the special-value table too: with zeros and infinities as operands the precision-0 rule takes other code paths
+			return append(append(gen.History(g, n(thor, 40, 600), n(thor, 200, 400)), gen.Alias(g, n(thor, 150, 3000))...), gen.Special(g, thor)...)
 		},
-		rule:        "every operation x receiver precision {0, >0} x receiver mode x operand attributes in long random histories and in all aliasing shapes; TLC compares the receiver's precision and mode with the documented value after every call, every non-receiver operand with the model state (all attributes), and the digest of every unnamed register with its previous digest",
+		rule:        "every operation x receiver precision {0, >0} x receiver mode x operand attributes in long random histories, in all aliasing shapes, and over the complete special-value table (operand classes x modes, operands of different precisions); TLC compares the receiver's precision and mode with the documented value after every call, every non-receiver operand with the model state (all attributes), and the digest of every unnamed register with its previous digest",
 		assumptions: commonAssumptions,
 	},
 	"C10": {
